@@ -90,6 +90,36 @@ def gen_case(r, cid, source, chain, tier):
     return line, style, inp
 
 
+def long_chunk_cases(r, cid0, tier):
+    """chunks of thousands of elements under a forced interleaving (run-length encoded picks):
+    worker 1 takes chunk 0, worker 2 chunk 1; worker 1 finishes, takes chunk 2 and finds a match
+    there first; worker 2 then has to finish its chunk, which holds the true first match deep
+    inside (beyond any periodic check point)"""
+    out = []
+    cid = cid0
+    for c in ([4096, 8192] if tier == "quick" else [1024, 4096, 5000, 8192]):
+        n = 2 * c + c // 2 + 7
+        deep = c + c - r.randrange(5, 90)          # near the end of chunk 1
+        later = 2 * c + r.randrange(50, 400)       # early in chunk 2
+        m = later - deep
+        for (src, chain, stages) in [("range", "F", ["Fg:%d" % (deep - 3)]), ("vec", "MF", ["M:1:0", "Fg:%d" % (deep - 3)]),
+                                     ("range", "M", ["M:1:0"])]:
+            pred = "F:%d:%d" % (m, deep % m)
+            if chain == "M":
+                # without the filter stage the predicate must not match before `deep`
+                big = later + 5
+                pred = "Fg:%d" % deep
+            term = r.choice(["find", "findix"]) + ":" + pred
+            ops = ["N:2", "C:%d" % c] + stages + ["C:%d" % c, "N:2"]
+            sched = "0x4,1x1,2x1,1x%d,1x%d,2x%d,1x50,2x50,0x5,1x5,2x5" % (c, later - 2 * c + 3, c + 5)
+            inp = list(range(n))
+            line = "id=%d shape=%s known=1 in=%s ops=%s term=%s avail=%d sched=%s fuel=0 macro=1" % (
+                cid, gen_harness.shape_name(src, chain), ",".join(map(str, inp)), ";".join(ops), term, k3.AVAIL, sched)
+            out.append((line, "long_chunks_late_publishes", inp))
+            cid += 1
+    return out
+
+
 def run_k4(tier, seed):
     os.makedirs(CACHE, exist_ok=True)
     key = "k4-%s-%s-%s-%s-%d" % (repo_hash(), model_hash(), harness_hash(), tier, seed)
@@ -110,6 +140,9 @@ def run_k4(tier, seed):
                 cases.append(line)
                 meta.append((style, inp))
                 cid += 1
+    for (line, style, inp) in long_chunk_cases(r, cid, tier):
+        cases.append(line)
+        meta.append((style, inp))
     rc1, impl, err1 = k3.parallel_run(bins["k3"], [], cases, shards=8)
     rc2, model, err2 = k3.parallel_run(DRIVER, ["k3"], cases, shards=16)
     res = {"total": len(cases), "mismatch": {}, "dist": {}, "samples": [], "errors": [], "nontrivial": 0,
